@@ -32,6 +32,12 @@ pub(crate) struct DotChain {
     links: Vec<DotLookupOption>,
 }
 
+impl DotChain {
+    pub(crate) fn links(&self) -> &[DotLookupOption] {
+        &self.links
+    }
+}
+
 impl Compile for DotLookupOption {
     fn compile(
         &self,
